@@ -112,10 +112,19 @@ def _patches(valid='all'):
     return make
 
 
-def body(ctx, conv, shape, bounds, nan_cells=None, mesh_opts=None, history=False):
+def body(ctx, conv, shape, bounds, nan_cells=None, mesh_opts=None, history=False, data_first=False):
     from emsarray.operations import geometry as G
     from emsarray.state import State
-    P = pipeline.build(ctx, conv, shape, bounds=bounds, nan_cells=nan_cells, mesh_opts=mesh_opts)
+    data = None
+    if data_first:
+        # a data variable stored (x, y), listed before the geometry variables
+        probe = {'cf1d': ('y', 'x'), 'cf2d': ('y', 'x'), 'shoc_simple': ('j', 'i')}[conv]
+        data = {'temp': (probe[::-1], numpy.zeros(shape[::-1]))}
+        pipeline.builders.DATA_FIRST = True
+    try:
+        P = pipeline.build(ctx, conv, shape, bounds=bounds, nan_cells=nan_cells, mesh_opts=mesh_opts, data=data)
+    finally:
+        pipeline.builders.DATA_FIRST = False
     cv, ds = P.convention, P.ds
     if not State.get(ds).is_bound():
         cv.bind()
@@ -123,6 +132,11 @@ def body(ctx, conv, shape, bounds, nan_cells=None, mesh_opts=None, history=False
     N = P.ncells
     present = [n for n in range(N) if polygons[n] is not None]
     ctx.note('config', dict(conv=conv, shape=str(shape), present=present))
+    # what is exported is compared with the library's polygons below; those are first compared with the cells the
+    # dataset describes (reference corners and native indexes written from the convention documents)
+    for n in present:
+        ctx.check(pipeline.ring_matches(geo.poly_coords(polygons[n]), P.corners(n)), "polygon n is built from cell n's own coordinates")
+        ctx.check(tuple(cv.wind_index(n)) == tuple(P.native(n)), 'native index n is the row-major native index of cell n')
     os.makedirs(os.path.join(VERIF, '.work'), exist_ok=True)
     work = tempfile.mkdtemp(dir=os.path.join(VERIF, '.work'), prefix='c15-')
     try:
@@ -314,6 +328,9 @@ def cases(tier):
         nm = 'all' if nan_cells is None else len(nan_cells)
         yield Case(f'{conv}:{shape[0]}x{shape[1]}:{bounds}:nan{nm}:after-another-export', body,
                    dict(conv=conv, shape=shape, bounds=bounds, nan_cells=nan_cells, history=True), patches=_patches(), max_paths=5000, split=8)
+    for conv, shape, bounds in (('cf1d', (2, 3), 'none'), ('cf2d', (3, 2), 'stored')):
+        yield Case(f'{conv}:{shape[0]}x{shape[1]}:{bounds}:nan0:data-first', body,
+                   dict(conv=conv, shape=shape, bounds=bounds, nan_cells=(), data_first=True), patches=_patches(), max_paths=5000, split=8)
     for fmt, ext in (('wkt', '.json'), ('geojson', '.wkb'), ('wkb', '.wkt'), ('geojson', '.geojson')):
         yield Case(f'cli:{fmt}:{ext}', body_cli, dict(fmt=fmt, ext=ext), max_paths=3)
     yield Case('large:cf2d-holes:3x4', body_large, dict(conv='cf2d-holes'), patches=_large_patches(), max_paths=5)
